@@ -222,6 +222,7 @@ func checkC16(ctx *Ctx, r *Report) {
 	c16ThirdHunt(ctx, r)
 	c16FourthHunt(ctx, r)
 	c16FifthHunt(ctx, r)
+	c16SixthHunt(ctx, r)
 	c16DismissalNeedsLostOptions(ctx, r)
 }
 
@@ -1178,4 +1179,78 @@ func c16NamesBefore(root parse.Node, followers []string) map[string]bool {
 		return true
 	})
 	return out
+}
+
+// c16SixthHunt — sixth hunt of C16 (three findings, each spanning the builder templates of several languages):
+//   - a language whose chain does not turn `null | T` into an optional T (TypeScript) loses the constraints of
+//     `nb?: null | (int & >5)`: the derivation reads constraints of scalars (and of references to scalars) only;
+//   - the constraints of a scalar reached through a reference to a *named optional* (`MaybeNum: null | (int & >5)`) are
+//     attached to an argument that admits null, unconditionally: `n(None)` raises TypeError in Python;
+//   - Java declares the fields of a union wrapper `protected` (they are set through factory methods) and the builder of an
+//     alias of that union living in another package assigns them directly.
+func c16SixthHunt(ctx *Ctx, r *Report) {
+	n := 0
+	fn := ctx.LookupMethod("internal/ast", "BuilderGenerator", "constrainedFieldToOption")
+	fd, _ := ctx.DeclOf(fn)
+	if fd == nil {
+		r.Undecided("anchor lost: ast.BuilderGenerator.constrainedFieldToOption")
+	} else {
+		throughUnions, looksAtNullable := false, false
+		ast.Inspect(fd.Body, func(m ast.Node) bool {
+			if sel, ok := m.(*ast.SelectorExpr); ok {
+				switch sel.Sel.Name {
+				case "IsDisjunction", "AsDisjunction", "NonNullTypes":
+					throughUnions = true
+				case "Nullable":
+					looksAtNullable = true
+				}
+			}
+			return true
+		})
+		// premise of the first clause, read from the chains: a language that does not run DisjunctionWithNullToOptional
+		// before the builders are derived still holds `null | T` as a union
+		var without []string
+		for _, lang := range []string{"golang", "java", "php", "python", "typescript"} {
+			p := ctx.Pkg("internal/jennies/" + lang)
+			if p == nil {
+				continue
+			}
+			runs := false
+			for _, f := range p.Syntax {
+				ast.Inspect(f, func(m ast.Node) bool {
+					if cl, ok := m.(*ast.CompositeLit); ok && strings.HasSuffix(exprString(cl.Type), "DisjunctionWithNullToOptional") {
+						runs = true
+					}
+					return true
+				})
+			}
+			if !runs {
+				without = append(without, lang)
+			}
+		}
+		n++
+		r.Check(len(without) == 0 || throughUnions, "derive/constraints-through-nullable-unions", "ast.constrainedFieldToOption derives the constraints of a union of null and a constrained scalar", fd.Pos(), "in every language (the chain makes it an optional scalar, or the derivation looks through the union)",
+			fmt.Sprintf("the chains of %v do not turn `null | T` into an optional T, and the derivation reads the constraints of scalars and of references to scalars only: `Main: {nb?: null | (int & >5), plain: int & >5}` gives TypeScript an option nb(nb: null | number) that accepts 3, while plain is constrained and the four other languages derive [nb > 5]", without))
+		n++
+		r.Check(looksAtNullable, "derive/nullable-constraint-arguments-guarded", "ast.constrainedFieldToOption attaches the constraints of a scalar reached through a reference", fd.Pos(), "knowing whether that scalar admits null",
+			"the constraints of the resolved scalar are copied onto the assignment without looking at its nullability: `MaybeNum: null | (int & >5); Main: {n: MaybeNum}` gives Python `def n(self, n: MaybeNum)` starting with `if not n > 5` — Main().n(None), a value the field accepts, raises TypeError: '>' not supported between 'NoneType' and 'int'")
+	}
+	if ts, err := loadTemplates(ctx, "java"); err != nil {
+		r.Undecided("cannot parse java templates: %v", err)
+	} else if tree := ts.trees["types"]; tree == nil {
+		r.Undecided("anchor lost: java template types")
+	} else {
+		protected := false
+		walkTmpl(tree.Root, func(m parse.Node) bool {
+			if in, ok := m.(*parse.IfNode); ok && in.Pipe != nil && strings.Contains(in.Pipe.String(), "HasFactoryMethods") && strings.Contains(tmplTextFull(in.List), "protected") {
+				protected = true
+			}
+			return true
+		})
+		n++
+		r.Check(!protected, "skeleton/java-union-fields-reachable-by-builders", "java class template declares the fields of a union wrapper", token.NoPos, "so that a builder of another package can set them",
+			"the fields of a class with factory methods are `protected`, and the builder of an alias of it living in another package assigns them directly: package other `U: string | int`, package pkgm `AU: other.U` — `class AU extends demo.other.U {}` and AUBuilder's `this.internal.string = …`: string has protected access in U, the builder does not compile")
+	}
+	r.Count("hunted clauses of the builder rules (6th hunt)", n)
+	r.Floor("hunted clauses of the builder rules (6th hunt)", 3)
 }
